@@ -127,6 +127,12 @@ func (c *fctx) checkOrder(n ast.Node) {
 					calls = append(calls, x)
 				}
 			}
+			for _, a := range c.t.writtenArgs(x) { // in-out slice arguments (trans_func.go)
+				if o, _ := c.t.rootObj(a); o != nil {
+					written[o] = true
+					calls = append(calls, x)
+				}
+			}
 			if o := c.t.seqWrites(x); o != nil { // [seq] atomic Store / CompareAndSwap / Add
 				written[o] = true
 				calls = append(calls, x)
@@ -170,7 +176,10 @@ func (c *fctx) taintCalls(n ast.Node, en *env) *env {
 	ast.Inspect(n, func(m ast.Node) bool {
 		if x, ok := m.(*ast.CallExpr); ok {
 			if fn, _ := c.t.calleeOf(x); fn != nil {
-				for _, a := range x.Args {
+				for i, a := range x.Args {
+					if fi := c.t.funcs[fn]; fi != nil && i < len(fi.noesc) && fi.noesc[i] {
+						continue // the callee neither keeps nor returns this slice (trans_func.go)
+					}
 					if tv, ok := c.t.info.Types[a]; ok && tv.Type != nil {
 						if _, isSlice := tv.Type.Underlying().(*types.Slice); isSlice {
 							if key, ok := c.aliasSource(a, en); ok && key != "?call" {
@@ -336,6 +345,9 @@ func (c *fctx) stmt(s ast.Stmt, en *env, lc *lctx, next kont) string {
 			}
 			if it.val == nil {
 				c.noZero08(g, it.id) // [ext:T08]
+				if noZero(g) {
+					t.fail(s, "zero value of %s, which contains a function (nil functions are not modelled)", it.id.Name)
+				}
 				en2, name := c.declare(en, obj, g)
 				return fmt.Sprintf("let %s := %s in\n%s", name, g.zero(), rec(i+1, en2))
 			}
@@ -400,6 +412,17 @@ func (c *fctx) stmt(s ast.Stmt, en *env, lc *lctx, next kont) string {
 
 // retTerm: the value a `return vs` produces: the results, preceded by the receiver when the method writes it.
 func (c *fctx) retTerm(en *env, vs []string) string {
+	if io := c.inoutParams(en); len(io) > 0 { // receiver, in-out slices, results (trans_func.go)
+		var pre []string
+		if c.fi.recv != nil && c.fi.writes {
+			pre = append(pre, en.lookup(c.fi.recv).name)
+		}
+		pre = append(pre, io...)
+		if len(vs) > 0 {
+			pre = append(pre, tuple(vs))
+		}
+		return tuple(pre)
+	}
 	var parts []string
 	if c.fi.recv != nil && c.fi.writes {
 		parts = append(parts, en.lookup(c.fi.recv).name)
@@ -770,7 +793,7 @@ func (t *Translator) emitFunc(fi *funcInfo) string {
 		var name string
 		en, name = c.declare(en, p, g)
 		params = append(params, fmt.Sprintf("(%s : %s)", name, g.coq()))
-		if g.k == kSlice && !fi.isOut08(i) { // [ext:T08] not an output parameter
+		if g.k == kSlice && !(i < len(fi.noesc) && fi.noesc[i]) && !fi.isOut08(i) { // [func] noesc; [ext:T08] not an output parameter
 			en = en.share(name) // the caller still holds the array
 		}
 	}
@@ -780,11 +803,23 @@ func (t *Translator) emitFunc(fi *funcInfo) string {
 	}
 	rt := tupleType(rts)
 	var stateT []string
-	if fi.recv != nil && fi.writes {
-		stateT = append(stateT, fi.recvT.coq())
-	}
-	for _, g := range t.ordered20(fi.gwrites) { // [ext:T20]
-		stateT = append(stateT, g.ty.coq())
+	if ioT := t.inoutTypes(fi); len(ioT) > 0 { // receiver, in-out slices, results (trans_func.go)
+		var pre []string
+		if fi.recv != nil && fi.writes {
+			pre = append(pre, fi.recvT.coq())
+		}
+		pre = append(pre, ioT...)
+		if len(rts) > 0 {
+			pre = append(pre, rt)
+		}
+		rt = tupleType(pre)
+	} else {
+		if fi.recv != nil && fi.writes {
+			stateT = append(stateT, fi.recvT.coq())
+		}
+		for _, g := range t.ordered20(fi.gwrites) { // [ext:T20]
+			stateT = append(stateT, g.ty.coq())
+		}
 	}
 	stateT = append(stateT, t.outTypes08(fi)...) // [ext:T08] output parameters
 	if len(stateT) > 0 {
